@@ -157,3 +157,25 @@ package json
 //@   ensures err == nil ==> freshAlloc(res) && len(res) == tl && forall k :: 0 <= k && k < tl ==> res[k] == M(tp + k)
 //@   assigns all
 //@   loop 1: invariant -1 <= rangeindex && rangeindex < len(optFuncs) && ctx.Option != nil && poolfree(ctx.Option.Flag)
+
+//@ func (*Encoder).encodeWithOption(e, ctx, v, optFuncs) (err)
+//@   props C11 C03
+//@   requires e != nil && ctx != nil && ctx.Option != nil
+//@   requires poolfree(ctx.Option.Flag) && poolfree(ctx.Option.Context)
+//@   callassert[C11] encode: poolfree(ctx.Option.Flag) && poolfree(ctx.Option.Context)
+//@   callassert[C11] encodeIndent: poolfree(ctx.Option.Flag) && poolfree(ctx.Option.Context)
+// the interpreters do not touch the Encoder
+//@   postassume encode: e.enabledIndent == old(e.enabledIndent)
+//@   postassume encodeIndent: e.enabledIndent == old(e.enabledIndent)
+//@   assigns all
+//@   loop 1: invariant -1 <= rangeindex && rangeindex < len(optFuncs) && ctx.Option != nil && poolfree(ctx.Option.Flag) && poolfree(ctx.Option.Context) && e.enabledIndent == old(e.enabledIndent)
+
+//@ func (*Encoder).EncodeWithOption(e, v, optFuncs) (err)
+//@   props C11
+//@   requires e != nil
+//@   assigns all
+
+//@ func (*Encoder).EncodeContext(e, ctx, v, optFuncs) (err)
+//@   props C11
+//@   requires e != nil
+//@   assigns all
